@@ -90,6 +90,7 @@ class Ctx(object):
         self.notes = []
         self.rechecked = 0
         self.caps = []
+        self.nondeterministic = []
 
     # ---- parallel map (fork pool; fn must be a module-level function)
     def pmap(self, fn, items, chunksize=None):
@@ -121,7 +122,9 @@ class Ctx(object):
             again = pool.map(_pool_call, items, 8)
         for it, a, b in zip(items, results, again):
             if json.dumps(a, sort_keys=True, default=repr) != json.dumps(b, sort_keys=True, default=repr):
-                raise HarnessError('non-deterministic evaluation for %r:\n  %r\n  %r' % (it, a, b))
+                # Not fatal by itself: a library that carries state from one message to the next produces exactly
+                # this.  A silent result is not trusted in that case (exit 2); violations found are still reported.
+                self.nondeterministic.append('%r: %r vs %r' % (it, a, b))
         self.rechecked += len(items)
 
     def violation(self, key, detail=None):
@@ -262,6 +265,10 @@ def main(argv=None):
             print('  group %s: %d' % (' '.join(g), n))
         print('%d unlisted violation(s), %d distinct' % (len(unlisted), len(seen)))
         return 1
+    if ctx.nondeterministic:
+        print('HARNESS-ERROR property=%s evaluation is not a deterministic function of its input (outcomes depend on '
+              'what was evaluated before): %s' % (prop, ctx.nondeterministic[0][:1500]))
+        return 2
     return 0
 
 
